@@ -88,20 +88,42 @@ func (c *Client) SubscriptionIDs() []uint32 {
 	return ids
 }
 
-// recreateSubscriptions creates new subscriptions
-// with the same parameters to replace the previous one
-func (c *Client) recreateSubscription(ctx context.Context, id uint32) error {
+// forgetSubscriptionsToRecreate deletes the given subscriptions from the
+// server and removes them from the client. It returns the subscriptions
+// which need to be recreated with recreateSubscription, including the ones
+// which could not be recreated during a previous reconnect.
+//
+// All previous subscriptions are removed before the first one is recreated
+// since the server can assign the id of a previous subscription to a new one,
+// e.g. after a restart.
+func (c *Client) forgetSubscriptionsToRecreate(ctx context.Context, ids []uint32) []*Subscription {
 	c.subMux.Lock()
 	defer c.subMux.Unlock()
 
-	sub, ok := c.subs[id]
-	if !ok {
-		return ua.StatusBadSubscriptionIDInvalid
+	subs := c.lostSubs
+	c.lostSubs = nil
+	for _, id := range ids {
+		sub, ok := c.subs[id]
+		if !ok {
+			continue
+		}
+		sub.recreate_delete(ctx)
+		c.forgetSubscription_NeedsSubMuxLock(ctx, id)
+		subs = append(subs, sub)
 	}
+	return subs
+}
 
-	sub.recreate_delete(ctx)
-	c.forgetSubscription_NeedsSubMuxLock(ctx, id)
+// recreateSubscription creates a new subscription with the same
+// parameters and monitored items to replace a previous one which
+// has been removed with forgetSubscriptionsToRecreate.
+func (c *Client) recreateSubscription(ctx context.Context, sub *Subscription) error {
+	c.subMux.Lock()
+	defer c.subMux.Unlock()
+
 	if err := sub.recreate_create(ctx); err != nil {
+		// the next reconnect tries to recreate it again.
+		c.lostSubs = append(c.lostSubs, sub)
 		return err
 	}
 
@@ -255,6 +277,7 @@ func (c *Client) ForgetSubscription(ctx context.Context, id uint32) {
 
 func (c *Client) forgetSubscription_NeedsSubMuxLock(ctx context.Context, id uint32) {
 	delete(c.subs, id)
+	c.lostSubs = slices.DeleteFunc(c.lostSubs, func(s *Subscription) bool { return s.SubscriptionID == id })
 	c.updatePublishTimeout_NeedsSubMuxLock()
 	stats.Subscription().Add("Count", -1)
 
